@@ -58,9 +58,11 @@ def gen_check(rng, dtype):
     elif dtype == "datetime64[ns]":
         k = rng.choice(["ge", "le", "gt"])
         args = {"ge": ["2020-01-01"], "le": ["2030-01-01"], "gt": ["2019-06-01 12:30:00"]}[k]
-        if rng.random() < 0.5:      # bounds with sub-second parts (milli / micro / nanoseconds only)
-            args = [rng.choice(["2020-01-01 00:00:07.500", "2020-01-01 00:00:07.000250", "2020-01-01 00:00:07.000000500",
-                                "2021-03-04 05:06:07.123456789", "2020-01-01 00:00:00.000000001"])]
+        if rng.random() < 0.5:      # bounds with sub-second parts (milli / micro / nanoseconds only); lower bounds stay
+            # below upper bounds (the serialiser refuses a component whose bounds contradict each other: ValueError)
+            year = "2030" if k == "le" else "2020"
+            args = [year + rng.choice(["-01-01 00:00:07.500", "-01-01 00:00:07.000250", "-01-01 00:00:07.000000500",
+                                       "-03-04 05:06:07.123456789", "-01-01 00:00:00.000000001"])]
     else:
         k, args = "isin", [[True, False]]
     return {"kind": k, "args": args, "opts": opts, "ts": dtype == "datetime64[ns]"}
